@@ -143,6 +143,8 @@ pub fn run_ops(file: &[u8], visible0: usize, ops: &[Op], cfg: &Config) -> Trace 
     let mut stage = Stage::Dec(dec);
     let mut tokens = vec![];
     let mut panicked = false;
+    // the caller's frame buffer survives a next_frame that ran out of input: the retried call gets the same buffer
+    let pending: std::cell::RefCell<Option<Vec<u8>>> = std::cell::RefCell::new(None);
     for op in ops {
         if let Op::Grow(n) = op {
             let v = visible.load(Ordering::SeqCst);
@@ -151,6 +153,10 @@ pub fn run_ops(file: &[u8], visible0: usize, ops: &[Op], cfg: &Config) -> Trace 
             continue;
         }
         let st = std::mem::replace(&mut stage, Stage::Dead);
+        if !matches!(op, Op::NextFrame(_)) {
+            *pending.borrow_mut() = None;
+        }
+        let pending_ref = &pending;
         let r = guarded(move || -> (Stage, String) {
             match (st, op) {
                 (Stage::Dec(mut d), Op::ReadHeader) => {
@@ -171,10 +177,18 @@ pub fn run_ops(file: &[u8], visible0: usize, ops: &[Op], cfg: &Config) -> Trace 
                             if size > MAX_BUF {
                                 "toolarge".to_string()
                             } else {
-                                let mut buf = vec![*p; size];
+                                let mut buf = match pending_ref.borrow_mut().take() {
+                                    Some(b) if b.len() == size => b,
+                                    _ => vec![*p; size],
+                                };
                                 match r.next_frame(&mut buf) {
                                     Ok(oi) => format!("frame({},{},{},{},{},{})", oi.width, oi.height, oi.color_type as u8, oi.bit_depth as u8, oi.line_size, dig(&buf)),
-                                    Err(e) => format!("err({})", err_short(&e)),
+                                    Err(e) => {
+                                        if err_short(&e) == "eof" {
+                                            *pending_ref.borrow_mut() = Some(buf);
+                                        }
+                                        format!("err({})", err_short(&e))
+                                    }
                                 }
                             }
                         }
